@@ -66,7 +66,11 @@ Theorem C12_tensor_eq : forall n ia ib da db a b,
 Proof. exact tensor_eq_spec. Qed.
 Print Assumptions C12_tensor_eq.
 
-(* a deep copy equals its original (both ways) *)
+(* a deep copy equals its original (both ways).  [deep_copy] is the value-level model of every
+   public copy form: copy.deepcopy, Fiber.copy(), Fiber.copy(preserve_owner=False) and the copy
+   Tensor.setRoot takes of an owned root - they differ only in owner / rank-attribute
+   bookkeeping, which the correspondence check observes through ==, isEmpty, countValues and
+   nonEmpty of the free-standing copy (Model/C12Check.v, copy_row) *)
 Theorem C12_deepcopy_eq : forall n d t, wf_root n t ->
   fiber_eq d d (deep_copy t) t = true /\ fiber_eq d d t (deep_copy t) = true.
 Proof. exact deep_copy_eq. Qed.
@@ -115,13 +119,30 @@ Theorem C12_oracle_meaning :
                <-> content (it_d x) (it_tree x) = content (it_d y) (it_tree y))
   /\ (forall x y, zs_eqb x y = true <-> x = y)
   /\ (forall c o, holds c12_checker c o = true <->
-        exists items,
+        exists items cps,
           o = VL [VL items;
                   VL (map (fun xy => Vb (same_content (fst xy) (snd xy))) (pairs (k_items c)));
                   VL (map (fun xy => Vb (zs_eqb (it_ids (fst xy)) (it_ids (snd xy))
                                          && same_content (fst xy) (snd xy)))
-                          (pairs (k_items c)))]
-          /\ Forall2 (fun it row => item_holds (k_depth c) it row = true) (k_items c) items)
+                          (pairs (k_items c)));
+                  VL cps]
+          /\ Forall2 (fun it row => item_holds (k_depth c) it row = true) (k_items c) items
+          /\ Forall2 (fun it blk => copies_hold (k_depth c) it blk = true) (k_items c) cps)
+  (* the block of the other copy forms (copy(), copy(preserve_owner=False), setRoot of an owned
+     root, copy of the tensor's root): one row per form; every copy equals its original both
+     ways and on its own is empty / counts / prunes as the original's content says *)
+  /\ (forall n it o, copies_hold n it o = true <->
+        exists rows, o = VL rows /\ length rows = n_copy_forms
+                     /\ Forall (fun row => copy_holds n it row = true) rows)
+  /\ (forall n it e1 e2 emp cnt ne s,
+        copy_holds n it (VL [e1; e2; emp; cnt; ne; s]) = true <->
+        let ct := content (it_d it) (it_tree it) in
+        e1 = VZ 1 /\ e2 = VZ 1
+        /\ emp = Vb (match ct with [] => true | _ :: _ => false end)
+        /\ cnt = VZ (Z.of_nat (length ct))
+        /\ (exists t', V_to_tree n ne = Some t' /\ content (it_d it) t' = ct
+                       /\ no_explicit_default (it_d it) t' = true
+                       /\ no_empty_below (it_d it) t' = true))
   /\ (forall n it e cnt ne ne1 ne2 dc1 dc2 tcnt tdc1 tdc2 s1 s2,
         item_holds n it (VL [e; cnt; ne; ne1; ne2; dc1; dc2; tcnt; tdc1; tdc2; s1; s2]) = true <->
         let ct := content (it_d it) (it_tree it) in
@@ -133,7 +154,8 @@ Theorem C12_oracle_meaning :
         /\ ne1 = VZ 1 /\ ne2 = VZ 1 /\ dc1 = VZ 1 /\ dc2 = VZ 1 /\ tdc1 = VZ 1 /\ tdc2 = VZ 1).
 Proof.
   split; [exact same_content_spec|]. split; [exact zs_eqb_spec|].
-  split; [exact c12_holds_meaning|exact item_holds_meaning].
+  split; [exact c12_holds_meaning|]. split; [exact copies_hold_meaning|].
+  split; [exact copy_holds_meaning|exact item_holds_meaning].
 Qed.
 Print Assumptions C12_oracle_meaning.
 
